@@ -46,7 +46,7 @@ type vr2World struct {
 	cidNum  map[types.FileContractID]uint64
 	ref     map[types.FileContractID][]types.Hash256
 	supers  map[types.FileContractID]bool
-	stale   map[types.FileContractID][]types.Hash256 // what the manager still serves for a renewed contract
+	stale   map[types.FileContractID][]types.Hash256 // what the manager serves for a renewed contract (nothing, unless it was revised again)
 	held    types.FileContractID // contract the current session holds
 	slot    int
 	accepted int
@@ -399,11 +399,11 @@ func (w *vr2World) renew(rev crhp2.ContractRevision, expectRefusal bool) (crhp2.
 		w.hN(crhp2.MetaRoot(served))), "ORes (Ok tt)")
 	if !w.supers[old] {
 		w.ref[newID] = append([]types.Hash256(nil), w.ref[old]...)
-		w.stale[old] = append([]types.Hash256(nil), w.ref[old]...)
 		w.supers[old] = true
 	} else {
 		w.ref[newID] = append([]types.Hash256(nil), w.stale[old]...)
 	}
+	w.stale[old] = nil // RenewContract drops the cleared contract's entry from the manager's cache
 	o := w.look(old)
 	n := w.look(newID)
 	if !vr2Eq(n.db, before.db) || !vr2Eq(n.cache, before.db) || n.fsize != before.fsize || n.mroot != before.mroot {
